@@ -340,6 +340,16 @@ func init() {
 			for _, sc := range withPostTicks(FamilySharp(tier), 2) {
 				items = append(items, explore("C04", sc, b, true))
 			}
+			// the sharp and the check-group scenarios again under the second internal scheduling policy (a woken goroutine runs
+			// before its waker goes on): the waiter, the End state and the check loops hand over in the opposite order
+			for _, sc := range withPostTicks(wakeTwins(FamilySharp(tier)), 2) {
+				items = append(items, explore("C04", sc, b, true))
+			}
+			for _, sc := range withPostTicks(wakeTwins(FamilyChk(tier)), 2) {
+				if strings.HasPrefix(sc.Name, "chk-pair-") || strings.HasPrefix(sc.Name, "chk-both-") || tier == "thorough" {
+					items = append(items, explore("C04", sc, b, true))
+				}
+			}
 			for _, sc := range withPostTicks(FamilyCont(tier), 2) {
 				if tier == "thorough" {
 					items = append(items, exploreCap("C04", sc, b, true, 900))
